@@ -18,7 +18,9 @@
      Flat f d      forall a in [0,2^32), mget f a = logical d a: f is the uncached memory
      op, cache_step, flat_step, ref_step, run    access histories and their observations
    All statements hold for every geometry with [cfg_ok], write-back and write-through, LRU and
-   PLRU, every miss penalty, nbits in {8,16,32}; nothing is bounded. *)
+   PLRU, every miss penalty, nbits in {8,16,32}; no size is bounded except the one in [cfg_ok]:
+   0 <= block bits <= 12.  That bound is not a convenience: beyond it the property is FALSE of the code
+   (finding D9); Props/C03LargeBlocks.v states exactly what holds for every block size. *)
 From ArchSim Require Import Model.Base Model.Mem Model.Cache
   Proofs.CacheArith Proofs.CacheInv Proofs.C03Proofs.
 Open Scope Z_scope.
